@@ -2,6 +2,7 @@ import ErgoVerif.Lemmas.SupStep
 import ErgoVerif.Lemmas.SupScan
 import ErgoVerif.Lemmas.SupOrder
 import ErgoVerif.Lemmas.SupLoopSOFO
+import ErgoVerif.Lemmas.SupLoopOFO
 /-!
 # C08 — supervisor restart semantics by type and strategy
 
@@ -22,6 +23,7 @@ Contents
 * T6 `C08_disabled_stays_down_*`.
 * simple-one-for-one, closed system, ALL histories: `C08_sofo_no_panic`, `C08_sofo_children_table`,
   `C08_sofo_all_stopped`, `C08_sofo_no_hang`.
+* one-for-one, closed system, ALL histories: `C08_ofo_no_panic` (no panic, handleAction terminates).
 * refuted full statements (listed findings) with proved counterexamples:
   `C08_no_panic_arfo_full` (D18), `C08_prescribed_set_full` (D25), `C08_all_stopped_ofo_full` (D26, D27),
   and the partial results that do hold.
@@ -237,6 +239,14 @@ def sp3 (rest ko : Bool) (st : Strategy) (sig3 das : Bool) : SupSpec :=
 
 theorem sp3_valid (rest ko : Bool) (st : Strategy) (sig3 das : Bool) : ValidSpec (sp3 rest ko st sig3 das) := by
   simp [ValidSpec, sp3]
+
+/-- T8 for one-for-one, unconditionally: from ProcessInit of any valid spec, in EVERY history (children dying at
+any moment, spawn failures, management calls in any state) the state machine never panics (`childStarted` is only
+ever handed a spec it knows, at the right index) and the `for` loop of `handleAction` always finishes -/
+theorem C08_ofo_no_panic (sp : SupSpec) (hv : ValidSpec sp) (c : Loop OFO) (h : OfoReach sp c) :
+    c.status ≠ .panicked ∧ c.status ≠ .stuck := by
+  obtain ⟨ls, hr⟩ := h
+  exact (run_inv (Inv := OFO.Inv) (fun s a s' hi hs => OFO.step_inv s s' a hi hs) (OFO.boot_inv sp hv.1) hr).sane
 
 /-- T8, full: no reachable panic in all/rest-for-one -/
 def C08_no_panic_arfo_full : Prop :=
